@@ -152,13 +152,17 @@ pub fn run(s: &mut Session, ctx: &Ctx) {
 fn near_optimal(s: &mut Session, c: &Color, code: u8, palette: &[(u8, pastel::Lab)]) -> (f64, f64) {
     let inp = || format!("{}.to_ansi_8bit()", show_color(c));
     let lab = c.to_lab();
-    let l3 = [lab.l, lab.a, lab.b];
+    // the independent judge takes its coordinates from the published definitions too (sharma::lab_of_srgb on
+    // the float channels; the palette from the published xterm table), not from the library's to_lab
+    let fl = c.to_rgba_float();
+    let l3 = crate::sharma::lab_of_srgb(fl.r, fl.g, fl.b);
     let (mut best, mut best_code, mut mine) = (f64::MAX, 0u8, f64::NAN);
     let (mut sbest, mut sbest_code, mut smine) = (f64::MAX, 0u8, f64::NAN);
     let mut diffs: Vec<(f64, f64)> = Vec::with_capacity(palette.len()); // (independent distance, |difference|)
     for (pc, pl) in palette {
         let d = pastel::delta_e::ciede2000(&lab, pl);
-        let p3 = [pl.l, pl.a, pl.b];
+        let (xr, xg, xb) = xterm(*pc);
+        let p3 = crate::sharma::lab_of_srgb(xr as f64 / 255.0, xg as f64 / 255.0, xb as f64 / 255.0);
         let ds = crate::sharma::ciede2000(l3, p3);
         if (d - ds).abs() > 1e-3 && (crate::sharma::hue_gap(l3, p3) - 180.0).abs() > 1e-9 {
             diffs.push((ds, (d - ds).abs()));
